@@ -9,6 +9,9 @@ import os
 import sys
 import time
 
+# the pure-Python bcrypt backend is only offered when this is set before passlib is imported
+os.environ.setdefault("PASSLIB_BUILTIN_BCRYPT", "enabled")
+
 sys.path.insert(0, os.path.join(os.path.dirname(os.path.abspath(__file__)), ".."))
 
 from common import Group, main, outcome  # noqa: E402
@@ -44,6 +47,23 @@ def pw_bytes(rng, n, variant):
 
 def pw_text(rng, n, pool=TEXT_POOL):
     return "".join(rng.choice(pool) for _ in range(n))
+
+
+def utf8_pw(rng, n, pool=TEXT_POOL):
+    """exactly n bytes of valid UTF-8 with multi-byte characters"""
+    out = b""
+    while len(out) < n:
+        c = rng.choice(pool).encode("utf-8")
+        out += c if len(out) + len(c) <= n else b"a"
+    return out
+
+
+def is_utf8(b):
+    try:
+        b.decode("utf-8")
+        return True
+    except UnicodeDecodeError:
+        return False
 
 
 def rstr(rng, n, chars=H64):
@@ -275,38 +295,69 @@ def run_format(fmt, tier, rng, groups, skipped, crypt_ok):
     except Exception as err:  # noqa: BLE001
         skipped.append(f"{fmt.name}: handler not loadable: {type(err).__name__}: {err}")
         return
-    g = TGroup("ref:" + fmt.name, fmt.name, "password lengths %s%s x salts (every size) x costs; hash(pw)==reference and verify(pw, reference)" % (fmt.lengths or LENGTHS, "" if tier == "quick" or fmt.lengths else "+4096"))
     use_os = fmt.osc is not None and crypt_ok.get(fmt.name)
-    for pw, salt, cost, ctx in plan(fmt, tier, rng):
-        pwb = as_bytes(pw)
+    cases = plan(fmt, tier, rng)
+    for be in available_backends(h, skipped):
+        if be is not None:
+            h.set_backend(be)
+        sfx = "" if be is None else ":" + be
+        g = TGroup("ref:" + fmt.name + sfx, fmt.name, "%spassword lengths %s%s x salts (every size) x costs; hash(pw)==reference and verify(pw, reference)" % ("backend %s; " % be if be else "", fmt.lengths or LENGTHS, "" if tier == "quick" or fmt.lengths else "+4096"))
+        for pw, salt, cost, ctx in cases:
+            pwb = as_bytes(pw)
+            try:
+                want = fmt.ref(pw if fmt.pw == "text" else pwb, salt, cost, ctx)
+            except Exception as err:  # noqa: BLE001 -- a crash of the reference is a harness problem, not a verdict
+                raise RuntimeError(f"reference for {fmt.name} crashed: {err!r} on {wit(fmt, pw, salt, cost, ctx)}") from err
+            kw = fmt.using(salt, cost)
+            g.case((fmt.name, pwb, repr(salt), repr(cost), repr(sorted(ctx.items()))))
+            want_hash = want
+            if fmt.hash_cost and fmt.hash_cost(cost) != cost:
+                want_hash = fmt.ref(pw if fmt.pw == "text" else pwb, salt, fmt.hash_cost(cost), ctx)
+            if fmt.hash_ok is None or fmt.hash_ok(salt, cost):
+                o = outcome(lambda: (h.using(**kw) if kw else h).hash(pw, **ctx))
+                if o[0] != "ok":
+                    g.fail(f"hash-exc:{fmt.name}{sfx}:{o[1]}", "hash() raised on an admissible input", wit(fmt, pw, salt, cost, ctx, backend=be, outcome=list(o)))
+                else:
+                    g.check(o[1] == want_hash, f"hash:{fmt.name}{sfx}", "hash differs from the independent implementation of the specification", wit(fmt, pw, salt, cost, ctx, backend=be, got=o[1], want=want_hash))
+            o = outcome(h.verify, pw, want, **ctx)
+            g.check(o == ("ok", True), f"verify:{fmt.name}{sfx}{fmt.tag(salt, cost)}", "string produced by the independent implementation does not verify", wit(fmt, pw, salt, cost, ctx, backend=be, string=want, outcome=list(o)))
+            if use_os:
+                setting = fmt.osc(salt, cost)
+                if setting is None or b"\0" in pwb:
+                    continue
+                os_hash = oscrypt.crypt(pwb, setting)
+                if os_hash is None:
+                    continue
+                g.check(os_hash == want, f"oscrypt-vs-ref:{fmt.name}", "crypt(3) and the reference disagree (harness oracle conflict)", wit(fmt, pw, salt, cost, ctx, os=os_hash, ref=want))
+                o = outcome(h.verify, pw, os_hash, **ctx)
+                g.check(o == ("ok", True), f"verify-oscrypt:{fmt.name}{sfx}{fmt.tag(salt, cost)}", "string produced by crypt(3) does not verify", wit(fmt, pw, salt, cost, ctx, backend=be, string=os_hash, outcome=list(o)))
+        groups.append(g.done())
+    restore_backend(h)
+
+
+def available_backends(h, skipped):
+    """[None] for single-implementation handlers, else every backend this host can load (each is tested)"""
+    names = getattr(h, "backends", None)
+    if not names or not hasattr(h, "set_backend"):
+        return [None]
+    out = []
+    for b in names:
+        o = outcome(h.has_backend, b)
+        if o == ("ok", True):
+            out.append(b)
+        else:
+            skipped.append(f"{h.name}: backend {b} not available on this host")
+    if not out:
+        skipped.append(f"{h.name}: no backend at all")
+    return out
+
+
+def restore_backend(h):
+    if getattr(h, "backends", None) and hasattr(h, "set_backend"):
         try:
-            want = fmt.ref(pw if fmt.pw == "text" else pwb, salt, cost, ctx)
-        except Exception as err:  # noqa: BLE001 -- a crash of the reference is a harness problem, not a verdict
-            raise RuntimeError(f"reference for {fmt.name} crashed: {err!r} on {wit(fmt, pw, salt, cost, ctx)}") from err
-        kw = fmt.using(salt, cost)
-        g.case((fmt.name, pwb, repr(salt), repr(cost), repr(sorted(ctx.items()))))
-        want_hash = want
-        if fmt.hash_cost and fmt.hash_cost(cost) != cost:
-            want_hash = fmt.ref(pw if fmt.pw == "text" else pwb, salt, fmt.hash_cost(cost), ctx)
-        if fmt.hash_ok is None or fmt.hash_ok(salt, cost):
-            o = outcome(lambda: (h.using(**kw) if kw else h).hash(pw, **ctx))
-            if o[0] != "ok":
-                g.fail(f"hash-exc:{fmt.name}:{o[1]}", "hash() raised on an admissible input", wit(fmt, pw, salt, cost, ctx, outcome=list(o)))
-            else:
-                g.check(o[1] == want_hash, f"hash:{fmt.name}", "hash differs from the independent implementation of the specification", wit(fmt, pw, salt, cost, ctx, got=o[1], want=want_hash))
-        o = outcome(h.verify, pw, want, **ctx)
-        g.check(o == ("ok", True), f"verify:{fmt.name}{fmt.tag(salt, cost)}", "string produced by the independent implementation does not verify", wit(fmt, pw, salt, cost, ctx, string=want, outcome=list(o)))
-        if use_os:
-            setting = fmt.osc(salt, cost)
-            if setting is None or b"\0" in pwb:
-                continue
-            os_hash = oscrypt.crypt(pwb, setting)
-            if os_hash is None:
-                continue
-            g.check(os_hash == want, f"oscrypt-vs-ref:{fmt.name}", "crypt(3) and the reference disagree (harness oracle conflict)", wit(fmt, pw, salt, cost, ctx, os=os_hash, ref=want))
-            o = outcome(h.verify, pw, os_hash, **ctx)
-            g.check(o == ("ok", True), f"verify-oscrypt:{fmt.name}{fmt.tag(salt, cost)}", "string produced by crypt(3) does not verify", wit(fmt, pw, salt, cost, ctx, string=os_hash, outcome=list(o)))
-    groups.append(g.done())
+            h.set_backend("default")
+        except Exception:  # noqa: BLE001
+            pass
 
 
 # ---------------------------------------------------------------------------------------------
@@ -337,48 +388,70 @@ def bcrypt_groups(tier, rng, groups, skipped, crypt_ok):
                 res.append((_bcrypt.hashpw(pwb, cfg.encode()).decode(), "bcrypt-package"))
             except Exception:  # noqa: BLE001
                 pass
-        if has_os:
+        if has_os and (ident != "2a" or max(pwb, default=0) < 0x80):  # see mkpw below
             r = oscrypt.crypt(pwb, cfg)
             if r:
                 res.append((r, "crypt(3)"))
         return res
 
-    g = TGroup("ref:bcrypt", "bcrypt", "idents 2a/2b/2y x cost 4..6 x password lengths %s x random salts; bcrypt package (<=72 bytes) and crypt(3)" % LENGTHS)
+    def mkpw(n, ident, idx):
+        # crypt_blowfish's $2a$ deliberately deviates for some 8-bit passwords (sign-extension countermeasure):
+        # 7-bit passwords wherever crypt(3) is the only oracle or is the backend under test
+        if ident == "2a" and (n > 72 or idx % 2):
+            return bytes(rng.randrange(1, 128) for _ in range(n))
+        if idx % 4 == 0:
+            return utf8_pw(rng, n)  # the os_crypt backend only takes UTF-8 passwords
+        return pw_bytes(rng, n, idx % 3)
+
     lengths = LENGTHS + ([] if tier == "quick" else list(range(66, 80)) + [4096])
     idx = 0
+    cases = []
     for n in lengths:
         for ident in ("2a", "2b", "2y"):
             for cost in (4,) if tier == "quick" and n not in (0, 8, 72, 73) else (4, 5, 6):
-                pw = pw_bytes(rng, n, idx % 3)
                 idx += 1
-                salt = bcrypt_salt(rng)
-                refs = oracle(pw, ident, cost, salt)
-                if not refs:
-                    continue
-                g.case(("bcrypt", pw, ident, cost, salt))
-                w = {"hasher": "bcrypt", "secret": {"bytes_hex": pw.hex()}, "ident": ident, "rounds": cost, "salt": salt}
-                if len({r for r, _ in refs}) > 1:
-                    g.fail("oracle-conflict:bcrypt", "bcrypt package and crypt(3) disagree", dict(w, refs=refs))
-                    continue
-                want = refs[0][0]
-                o = outcome(lambda: H.bcrypt.using(salt=salt, rounds=cost, ident=ident).hash(pw))
-                if o[0] != "ok":
-                    g.fail(f"hash-exc:bcrypt:{o[1]}" + (":over72" if n > 72 else ""), "hash() raised", dict(w, outcome=list(o)))
-                else:
-                    g.check(o[1] == want, "hash:bcrypt" + (":over72" if n > 72 else ""), "hash differs from %s" % refs[0][1], dict(w, got=o[1], want=want))
-                o = outcome(H.bcrypt.verify, pw, want)
-                g.check(o == ("ok", True), "verify:bcrypt" + (":over72" if n > 72 else ""), "oracle string does not verify", dict(w, string=want, outcome=list(o)))
-    groups.append(g.done())
+                cases.append((mkpw(n, ident, idx), ident, cost, bcrypt_salt(rng)))
+    for be in available_backends(H.bcrypt, skipped):
+        H.bcrypt.set_backend(be)
+        g = TGroup("ref:bcrypt:" + be, "bcrypt", "backend %s; idents 2a/2b/2y x cost 4..6 x password lengths %s x random salts; bcrypt package (<=72 bytes) and crypt(3)%s" % (be, LENGTHS, " [builtin: cost 4, every third case]" if be == "builtin" and tier == "quick" else ""))
+        for i, (pw, ident, cost, salt) in enumerate(cases):
+            n = len(pw)
+            if be == "builtin" and (cost > 4 or (tier == "quick" and i % 3) or n > 256):
+                continue
+            if be == "os_crypt" and ((ident == "2a" and max(pw, default=0) >= 0x80) or not is_utf8(pw)):
+                continue  # documented limits of that backend (crypt_blowfish $2a$ countermeasure; crypt() wrapper is UTF-8 only)
+            refs = oracle(pw, ident, cost, salt)
+            if not refs:
+                continue
+            g.case(("bcrypt", pw, ident, cost, salt))
+            w = {"hasher": "bcrypt", "backend": be, "secret": {"bytes_hex": pw.hex()}, "ident": ident, "rounds": cost, "salt": salt}
+            if len({r for r, _ in refs}) > 1:
+                g.fail("oracle-conflict:bcrypt", "bcrypt package and crypt(3) disagree", dict(w, refs=refs))
+                continue
+            want = refs[0][0]
+            over = ":over72" if n > 72 else ""
+            o = outcome(lambda: H.bcrypt.using(salt=salt, rounds=cost, ident=ident).hash(pw))
+            if o[0] != "ok":
+                g.fail(f"hash-exc:bcrypt:{be}:{o[1]}{over}", "hash() raised", dict(w, outcome=list(o)))
+            else:
+                g.check(o[1] == want, f"hash:bcrypt:{be}{over}", "hash differs from %s" % refs[0][1], dict(w, got=o[1], want=want))
+            o = outcome(H.bcrypt.verify, pw, want)
+            g.check(o == ("ok", True), f"verify:bcrypt:{be}{over}", "oracle string does not verify", dict(w, string=want, outcome=list(o)))
+        groups.append(g.done())
+    restore_backend(H.bcrypt)
 
     # bcrypt_sha256 (passlib's own published construction, docs/lib/passlib.hash.bcrypt_sha256.rst)
-    g = TGroup("ref:bcrypt_sha256", "bcrypt_sha256", "v=2 (HMAC-SHA256 keyed by the salt string) and v=1 (plain SHA256) x cost 4..5 x password lengths; inner bcrypt by the bcrypt package / crypt(3)")
+    cases = []
     for n in LENGTHS + ([] if tier == "quick" else [4096]):
         for version in (2, 1):
-            pw = pw_bytes(rng, n, idx % 3)
             idx += 1
-            salt = bcrypt_salt(rng)
-            cost = 4 + idx % 2
-            ident = "2b" if version == 2 else ("2a", "2b")[idx % 2]
+            cases.append((pw_bytes(rng, n, idx % 3) if idx % 4 else utf8_pw(rng, n), version, bcrypt_salt(rng), 4 + idx % 2, "2b" if version == 2 else ("2a", "2b")[idx % 2]))
+    for be in available_backends(H.bcrypt_sha256, skipped):
+        H.bcrypt_sha256.set_backend(be)
+        g = TGroup("ref:bcrypt_sha256:" + be, "bcrypt_sha256", "backend %s; v=2 (HMAC-SHA256 keyed by the salt string) and v=1 (plain SHA256) x cost 4..5 x password lengths; inner bcrypt by the bcrypt package / crypt(3)" % be)
+        for i, (pw, version, salt, cost, ident) in enumerate(cases):
+            if be == "builtin" and (cost > 4 or (tier == "quick" and i % 3)):
+                continue
             if version == 2:
                 key = base64.b64encode(std_hmac.new(salt.encode(), pw, hashlib.sha256).digest())
             else:
@@ -389,15 +462,16 @@ def bcrypt_groups(tier, rng, groups, skipped, crypt_ok):
             digest = refs[0][0][-31:]
             want = "$bcrypt-sha256$v=2,t=%s,r=%d$%s$%s" % (ident, cost, salt, digest) if version == 2 else "$bcrypt-sha256$%s,%d$%s$%s" % (ident, cost, salt, digest)
             g.case(("bcrypt_sha256", pw, version, cost, salt))
-            w = {"hasher": "bcrypt_sha256", "secret": {"bytes_hex": pw.hex()}, "version": version, "ident": ident, "rounds": cost, "salt": salt}
+            w = {"hasher": "bcrypt_sha256", "backend": be, "secret": {"bytes_hex": pw.hex()}, "version": version, "ident": ident, "rounds": cost, "salt": salt}
             o = outcome(lambda: H.bcrypt_sha256.using(salt=salt, rounds=cost, ident=ident, version=version).hash(pw))
             if o[0] != "ok":
-                g.fail(f"hash-exc:bcrypt_sha256:v{version}:{o[1]}", "hash() raised", dict(w, outcome=list(o)))
+                g.fail(f"hash-exc:bcrypt_sha256:{be}:v{version}:{o[1]}", "hash() raised", dict(w, outcome=list(o)))
             else:
-                g.check(o[1] == want, f"hash:bcrypt_sha256:v{version}", "hash differs from the documented construction", dict(w, got=o[1], want=want))
+                g.check(o[1] == want, f"hash:bcrypt_sha256:{be}:v{version}", "hash differs from the documented construction", dict(w, got=o[1], want=want))
             o = outcome(H.bcrypt_sha256.verify, pw, want)
-            g.check(o == ("ok", True), f"verify:bcrypt_sha256:v{version}", "reference string does not verify", dict(w, string=want, outcome=list(o)))
-    groups.append(g.done())
+            g.check(o == ("ok", True), f"verify:bcrypt_sha256:{be}:v{version}", "reference string does not verify", dict(w, string=want, outcome=list(o)))
+        groups.append(g.done())
+    restore_backend(H.bcrypt_sha256)
 
     # ldap_bcrypt / django_bcrypt prefix wrappers
     g = TGroup("ref:bcrypt-wrappers", "ldap_bcrypt", "{CRYPT} and bcrypt$ prefixes around bcrypt: lengths x cost 4")
